@@ -221,6 +221,26 @@ func c18Getters(p *core.Program, r *core.Report) {
 				probs = append(probs, "a well-formed value is not returned")
 			}
 		}
+		// the parse's verdict is listened to: a strconv result whose error is thrown away is the zero
+		// value for anything malformed, not the caller's default
+		ast.Inspect(fi.Decl.Body, func(n ast.Node) bool {
+			as, ok := n.(*ast.AssignStmt)
+			if !ok || len(as.Rhs) != 1 || len(as.Lhs) != 2 {
+				return true
+			}
+			call, ok := ast.Unparen(as.Rhs[0]).(*ast.CallExpr)
+			if !ok {
+				return true
+			}
+			fn := calleeFunc(ginfo, call)
+			if fn == nil || fn.Pkg() == nil || fn.Pkg().Path() != "strconv" || !(strings.HasPrefix(fn.Name(), "Parse") || fn.Name() == "Atoi") {
+				return true
+			}
+			if id, ok := as.Lhs[1].(*ast.Ident); ok && id.Name == "_" {
+				probs = append(probs, "the error of strconv."+fn.Name()+" is discarded: a malformed value yields the zero value instead of the supplied default")
+			}
+			return true
+		})
 		// the parse must reject what the result type cannot hold: parsing wider (Atoi, ParseInt(..., 64))
 		// and then converting to a narrower integer wraps an out-of-range value instead of yielding the default
 		parsedBits := map[types.Object]int64{}
